@@ -61,6 +61,7 @@ class C16Engine(C09.C09Engine):
         self.via = via
         self.version = 0
         self.memo: Dict[Tuple[str, str], Tuple[int, Any]] = {}
+        self.last_raised: Optional[Tuple[str, str, str]] = None
         self.reg0 = self.registries()
 
     # ------------------------------------------------------------ helpers
@@ -125,6 +126,9 @@ class C16Engine(C09.C09Engine):
         after = real_dump(self.real, self.kinds)
         eq_after = self.eq_matrix()
         self.count(f"probe:render-{kind}.{lang}")
+        if isinstance(got, list) and kind in ("table", "db"):
+            self.last_raised = (h, lang, got[1])
+            self.count(f"probe:render-raised-{kind}.{lang}:{got[1]}")
         if eq_before != eq_after:
             changed = sorted(set(eq_before) ^ set(eq_after))
             raise Violation(PROP, "purity", {"after": ctx, "render": [h, lang], "pairs_whose_equality_changed": changed[:6]},
@@ -355,11 +359,55 @@ def draw_op(rng: random.Random, eng: C16Engine, weights: Dict[str, float]) -> Li
             free = [h for h, d in w.m.items() if d["kind"] in TOP and d.get("db") is None]
             if free:
                 return ["add", db, rng.choice(free), rng.random() < 0.5]
+    if k == "t_del_col" and rng.random() < 0.4:
+        # a column that a contained reference ends at: the reference then points at a detached column
+        ends = [c for r, d in w.m.items() if d["kind"] == "ref" and d.get("db") for c in d["col1"] + d["col2"]
+                if w.m[c].get("table")]
+        if ends:
+            c = rng.choice(ends)
+            return ["t_del_col", w.m[c]["table"], c]
     sub = {x: y for x, y in C09.OPW.items() if x == k}
     op = C09.draw_op(rng, eng, sub or {"add": 1})
     if op[0] in ("add", "delete", "add_bad", "delete_bad", "delete_project") and rng.random() < 0.5:
         op[1] = rng.choice(w.handles("db"))
     return op
+
+
+def chase_failure(rng: random.Random, eng: C16Engine, h: str, lang: str) -> List[List[Any]]:
+    """A rendering of a table or database has just raised.  Whatever that attempt may have left behind must not
+    show in later renderings: edit something the failed rendering was working on, then render one of the table's
+    elements on its own, the table, and the element again (the last two at one model version)."""
+    m = eng.w.m
+    if eng.kinds[h] == "db":
+        ts = [t for t in m[h]["tables"] if m[t]["cols"]]
+        if not ts:
+            return []
+        # prefer a table one of whose references has lost an endpoint (what makes a database rendering raise)
+        broken = [t for t in ts for r in m[h]["refs"]
+                  if (set(m[r]["col1"]) | set(m[r]["col2"])) & set(m[t]["cols"])
+                  and any(m[c].get("table") is None or m[m[c]["table"]].get("db") != h for c in m[r]["col1"] + m[r]["col2"])]
+        t = rng.choice(broken) if broken and rng.random() < 0.8 else rng.choice(ts)
+    else:
+        t = h
+    cols = list(m[t]["cols"])
+    if not cols:
+        return []
+    db = m[t].get("db")
+    touching = [r for r, d in m.items() if d["kind"] == "ref" and (set(d["col1"]) | set(d["col2"])) & set(cols)]
+    edits: List[Tuple[List[Any], Optional[str]]] = []
+    for r in touching:
+        if m[r].get("db"):
+            edits.append((["delete", m[r]["db"], r, rng.random() < 0.5], r))
+        elif db:
+            edits.append((["add", db, r, rng.random() < 0.5], r))
+    if not edits or rng.random() < 0.2:
+        edits = [(["flip_pk", rng.choice(cols)], None)]
+    edit, r = rng.choice(edits)
+    ends = [x for x in (m[r]["col1"] + m[r]["col2"]) if x in cols] if r else []
+    c = rng.choice(ends) if ends and rng.random() < 0.75 else rng.choice(cols)
+    lang2 = lang if rng.random() < 0.8 else rng.choice(["sql", "dbml"])
+    return [edit, ["render", c, lang2], ["render", t, lang2], ["render", c, lang2],
+            ["render", rng.choice(cols), lang2]]
 
 
 def _initial(eng: C16Engine) -> Optional[str]:
@@ -430,12 +478,16 @@ def generate(env: Env, rseed: int, thorough: bool):
     final_probe = False
     try:
         tries = 0
+        pending: List[List[Any]] = []
         while len(ops) < nops and tries < nops * 6:
             tries += 1
-            op = draw_op(g, eng, weights)
+            op = pending.pop(0) if pending else draw_op(g, eng, weights)
+            eng.last_raised = None
             st = eng.step(op, len(ops))
             if st != "veto":
                 ops.append(op)
+            if eng.last_raised and not pending and g.random() < (0.15 if eng.last_raised[2] == "UnknownDatabaseError" else 0.8):
+                pending = chase_failure(g, eng, *eng.last_raised[:2])
         final_probe = True
         eng.step(["render_all", 1], len(ops))   # run_ops() appends the same final probe
     except Violation as v:
